@@ -91,3 +91,12 @@ package upstream
 //@ at call ServeHTTP#1 assert[plain-proxy-otherwise] recv(ServeHTTP#1) == h.handler && arg(ServeHTTP#1, 1) == req
 //@ ensures[exactly-one-upstream-handler] called(ServeHTTP#0) != called(ServeHTTP#1)
 //@ at call Set assert[only-gap-auth-and-only-when-signing] h.auth != nil && arg(Set, 1) == "GAP-Auth"
+
+//@ func splitPathAndQuery
+//@ safety
+//@ prop C17
+//@ at call Add assert[rule-query-values-are-added-to-the-clients-query] arg(Add, 0) == originalQuery && arg(Add, 1) == key && arg(Add, 2) == value
+//@ ensures[client-query-values-are-never-replaced-or-removed] !called(Set) && !called(Del)
+//@ ensures[path-is-the-part-before-the-question-mark] ret2 == nil && ret0 == strings.SplitN(raw, "?", 2)[0]
+//@     || (called(url.ParseQuery) && ret1(url.ParseQuery) != nil)
+//@ at call Encode assert[query-is-the-encoded-merged-client-query] arg(Encode, 0) == originalQuery
